@@ -40,6 +40,8 @@ def validate(ctx, module, traces, name, canaries=(), workers=16, timeout=1200, c
             out.setdefault(m["id"], {"mismatches": []})["verdict"] = v
         elif v in ("MISMATCH", "INVARIANT"):
             out.setdefault(m["id"], {"mismatches": []})["mismatches"].append(m)
+        elif v is not None:
+            out.setdefault(m["id"], {"mismatches": []}).setdefault("other", []).append(m)
     missing = [i for i in ids if i not in out or "verdict" not in out[i]]
     if missing:
         raise MachineryError("no verdict for %d trace(s) in %s, e.g. %r\n%s" % (len(missing), name, missing[:3], res.out[-1500:]))
@@ -59,7 +61,7 @@ def validate(ctx, module, traces, name, canaries=(), workers=16, timeout=1200, c
                 w = where(bytr[i], m) or "%s@%s:%s" % (i, m.get("l"), m.get("op"))
                 ctx.violation(m.get("clause", "?"), w, {"trace": i, "event": m.get("l"), "op": m.get("op"),
                                                          "expected": _short(m.get("exp")), "logged": _short(m.get("got")),
-                                                         "event_logged": _short(bytr[i]["events"][m["l"] - 1], 3000)
+                                                         "event_logged": _short(bytr[i]["events"][m["l"] - 1], 700)
                                                          if "events" in bytr[i] and isinstance(m.get("l"), int) and 0 < m["l"] <= len(bytr[i]["events"]) else None})
     ctx.add_mc("trace:" + name, res, "%d traces" % len(traces), count=False)
     return out
